@@ -531,6 +531,13 @@ def directed_c01():
     D.append(("continue_then_nested_loop_yield_post", [("decl", "i", "0"), ("for", None, "i < n", Y("i + 100"), [("inc", "i"), ("if", "g1", [("continue",)], None), ("for", ("decl", "j", "0"), "j < 2", ("inc", "j"), [E(4)]), Y("i + 1")])]))
     D.append(("continue_then_nested_range_yield_post", [("decl", "i", "0"), ("for", None, "i < n", Y("i + 100"), [("inc", "i"), ("if", "(i+a)&1 == 0", [("continue",)], None), ("range", "_", "w", ":=", "[]int{1, 2}", [Y("i*10 + w")])])]))
     D.append(("continue_then_yieldfrom_yieldfrom_post", [("decl", "i", "0"), ("for", None, "i < n", ("yieldfrom", "H2(i + 50)"), [("inc", "i"), ("if", "(i+a)&1 == 0", [E(5), ("continue",)], None), ("yieldfrom", "H2(i)")])]))
+    # pinned after a regression run of the older seeds (C01_r9 was caught through sampled programs only)
+    D.append(("tagless_switch_native_break_before_yield_in_loop", [("for", ("decl", "i", "0"), "i < n + 1", ("inc", "i"), [("raw", "switch {\ncase (i+a)&1 == 0:\n\tif g1 {\n\t\tbreak\n\t}\n\tYield(i + 1)\n\trt.Emit(rt.EFF, 790)\ncase g2:\n\tYield(i + 2)\ndefault:\n\trt.Emit(rt.EFF, 791)\n}"), Y("i + 3")]), Y("a")]))
+    D.append(("tagless_switch_native_break_before_yield_no_loop", [E(1), ("raw", "switch {\ncase g1:\n\tif g2 {\n\t\tbreak\n\t}\n\tYield(a + 1)\ncase g3:\n\trt.Emit(rt.EFF, 792)\n}"), Y("b + 2")]))
+    D.append(("switch_assign_init_yielding", [("decl", "z", "a"), ("raw", "switch z = b & 3; z {\ncase 0:\n\tYield(z + 1)\ncase 1:\n\trt.Emit(rt.EFF, 793)\ndefault:\n\tYield(z + 2)\n\tz++\n}"), Y("z + 3")]))
+    D.append(("switch_assign_init_in_yield_free_parent", [("decl", "z", "a"), ("if", "g1", [("raw", "switch z = b & 1; z {\ncase 0:\n\trt.Emit(rt.EFF, 794)\n}")], None), Y("z + 4")]))
+    D.append(("if_init_define_yielding_else_if", [("raw", "if v := rt.Eff(795, a) & 3; v == 0 {\n\tYield(v + 1)\n} else if w := rt.Eff(796, b) & 1; w == 0 {\n\tYield(v + w + 2)\n} else {\n\trt.Emit(40, v+w)\n}"), Y("b + 3")]))
+    D.append(("if_init_assign_and_call_yielding", [("decl", "z", "a"), ("raw", "if z = rt.Eff(797, b); z&1 == 0 {\n\tYield(z + 1)\n} else {\n\tYield(z + 2)\n}\nif rt.Emit(rt.EFF, 798); g1 {\n\tYield(z + 3)\n}\nif z++; g2 {\n\tYield(z + 4)\n}"), Y("z + 5")]))
     D.append(("yielding_switch_ends_loop", [("for", ("decl", "i", "0"), "i < n", ("inc", "i"), [("switch", None, "i&1", [("0", [Y("i + 1")])], None)]), Y("a + 2")]))
     return D
 
@@ -1049,6 +1056,9 @@ def directed_c03():
     D.append(("body_var_decl_escaping_closure", [("raw", "var fs []func() int"), ("for", ("decl", "i", "0"), "i < n", ("inc", "i"), [("raw", "var x int\nx += a + i*10\nfs = append(fs, func() int {\n\tx++\n\treturn x\n})"), Y("x + 1")]), ("raw", "for _, f := range fs {\n\tYield(f() + 100)\n}\nfor _, f := range fs {\n\tYield(f() + 200)\n}")]))
     D.append(("body_var_define_escaping_closure_while", [("raw", "var fs []func() int\nw := 0"), ("for", None, "w < n", None, [("raw", "w++\nx := b + w\nvar y int\nfs = append(fs, func() int {\n\ty += x\n\treturn y\n})"), Y("x + y + 2")]), ("raw", "for _, f := range fs {\n\tYield(f() + 300)\n}\nfor _, f := range fs {\n\tYield(f() + 400)\n}")]))
     D.append(("body_var_decl_escaping_closure_called_next_iteration", [("raw", "prev := func() int { return -1 }"), ("for", ("decl", "i", "0"), "i < n", ("inc", "i"), [("raw", "var x int\nvar s struct{ v int }"), Y("prev() + 3"), ("raw", "x, s.v = a+i, b+i\nprev = func() int {\n\tx += s.v\n\treturn x\n}")]), Y("prev() + 4")]))
+    # pinned: seed C03_r13 was reached through sampled programs only
+    D.append(("if_return_else_block_shadows", [("decl", "x", "a + 1"), ("if", "g1", [Y("x + 2"), ("return",)], [("decl", "x", "b + 3"), Y("x + 4"), ("assign", "x", "x + 5")]), Y("x + 6"), ("assign", "x", "x + 7"), Y("x + 8")]))
+    D.append(("if_return_else_block_shadows_in_loop", [("decl", "x", "a"), ("for", ("decl", "i", "0"), "i < n", ("inc", "i"), [("if", "g2 && i == 1", [Y("x + 9"), ("return",)], [("raw", "var x = b + i"), Y("x + 10")]), ("assign", "x", "x + 11"), Y("x + 12")])]))
     return D
 
 
